@@ -77,10 +77,11 @@ class Combine1Fiber(NumericJob):
             nspec = rng.randint(2, 3) if stacked else 1
             npix = rng.randint(110, 200) if stacked else rng.choice([rng.randint(12, 40), rng.randint(40, 260)])
             start = 3.5 + rng.uniform(0, 0.3)
-            x = np.array([start + BIN * (np.arange(npix) + (rng.uniform(-0.4, 0.4) if s else 0.0)) for s in range(nspec)])
+            offs = [0] + [rng.choice([0, 0, rng.randint(5, 60)]) for _ in range(nspec - 1)]      # exposures may cover different ranges
+            x = np.array([start + BIN * (np.arange(npix) + offs[s] + (rng.uniform(-0.4, 0.4) if s else 0.0)) for s in range(nspec)])
             kind = rng.choice(["smooth", "smooth", "constant", "noisy"])
             amp, per = rng.uniform(0.5, 3.0), rng.uniform(25, 80)
-            base = rng.uniform(5, 20)
+            base = rng.choice([rng.uniform(5, 20), rng.uniform(5, 20), 3.0, 250.0, -2.0, 0.5])     # round constants have an exactly zero sample variance
             flux = base + (0.0 if kind == "constant" else amp) * np.sin((x - start) / BIN / per)
             iv = np.array([[rng.uniform(0.5, 4.0) for _ in range(npix)] for _ in range(nspec)])
             if rng.random() < 0.3:
@@ -151,13 +152,17 @@ class Combine1Fiber(NumericJob):
                 bad.append(("single_spectrum_ivar_is_linear_interpolation_below_local_maximum", "pixel %d: %g, interpolation %g, local maximum %g" % (k, ni[k], li[k], hi[k])))
         # 'damp' multiplies the whole spectrum, good pixels included, by an error-function taper towards the ends of the good range
         # (its purpose, as in the IDL original): the value clauses below are not stated for it
-        if c["kind"] == "constant" and good.any() and method != "damp":
-            where = good if method == "nothing" else np.ones(new.shape, dtype=bool)
+        # output pixels at least 3 input pixels inside a completely good single spectrum: "where the input is good"
+        inner = np.zeros(new.shape, dtype=bool)
+        if X.shape[0] == 1 and (W > 0).all():
+            inner = (new >= X[0].min() + 3 * BIN) & (new <= X[0].max() - 3 * BIN)
+        if c["kind"] == "constant" and (good.any() or inner.any()) and method != "damp":
+            where = (good | inner) if method == "nothing" else np.ones(new.shape, dtype=bool)
             cval = f0.flat[0]
             if not np.allclose(nf[where], cval, rtol=1e-4, atol=0):      # the normal equations of short groups are ill-conditioned: ~1e-5 observed
                 bad.append(("constant_spectrum_stays_constant", "method %s: constant %g, output between %g and %g" % (method, cval, nf[where].min(), nf[where].max())))
-        if c["grid"] == "same" and c["kind"] in ("smooth", "constant") and X.shape[0] == 1 and good.any() and method != "damp":
-            err = np.abs(nf - f0)[good].max()
+        if c["grid"] == "same" and c["kind"] in ("smooth", "constant") and X.shape[0] == 1 and (good | inner).any() and method != "damp":
+            err = np.abs(nf - f0)[good | inner].max()
             if err > 2e-3 * max(1.0, np.abs(f0).max()):
                 bad.append(("same_grid_identity_where_weighted", "max deviation %g where the output carries weight" % err))
         if c["kind"] != "noisy":
